@@ -91,6 +91,8 @@ class Executor(Engine):
                     and (st is None or fn.value.id not in st.env):
                 return f"api.{fn.value.id}.{m}"      # call through the class: classmethod / staticmethod
             # method on a converter / record: decided by the receiver's class when known
+            if f"mapping_service.api.MappingServiceGraph.{m}" in self.contracts:
+                return f"mapping_service.api.MappingServiceGraph.{m}"
             for cls in ("Converter", "Record"):
                 q = f"api.{cls}.{m}"
                 if q in self.contracts:
@@ -639,6 +641,8 @@ class Executor(Engine):
             if not isinstance(recv, VRef):
                 raise Unsupported(f"method call on {type(recv).__name__}")
             q = f"api.{recv.cls}.{call.func.attr}"
+            if recv.cls == "MappingServiceGraph":
+                q = f"mapping_service.api.MappingServiceGraph.{call.func.attr}"
             if q not in self.contracts:
                 raise Unsupported(f"no contract for {q}")
         outs = []
